@@ -4,3 +4,12 @@ import OsacaVerif.Model.RegDep
 import OsacaVerif.Spec.RegUniverse
 import OsacaVerif.Lemmas.Text
 import OsacaVerif.Props.C12
+import OsacaVerif.Model.ImportText
+import OsacaVerif.Model.ImportTypes
+import OsacaVerif.Model.Import
+import OsacaVerif.Spec.ImportSpec
+import OsacaVerif.Lemmas.ImportNum
+import OsacaVerif.Lemmas.ImportDecode
+import OsacaVerif.Lemmas.ImportFlow
+import OsacaVerif.Lemmas.ImportTextL
+import OsacaVerif.Props.C20
